@@ -4,6 +4,7 @@ import (
 	"fmt"
 	"math"
 	"reflect"
+	"sort"
 	"strings"
 
 	"github.com/jub0bs/cors"
@@ -265,6 +266,7 @@ func c05Judge(k c04Case) *vlib.Failure {
 	if err == nil {
 		return vlib.Failf("%s reports nothing for %s, which contains %d violation(s): %+v", k.Via, k.Cfg.GoLiteral(), len(want), want)
 	}
+	msg0 := err.Error() // before any traversal
 	var got []c05Got
 	var leaves []error
 	for e := range cfgerrors.All(err) {
@@ -274,6 +276,21 @@ func c05Judge(k c04Case) *vlib.Failure {
 		}
 		got = append(got, g)
 		leaves = append(leaves, e)
+	}
+	// traversing an error is an observation: a second traversal yields the same leaves in the same order and the
+	// message is what it was before
+	i2 := 0
+	for e := range cfgerrors.All(err) {
+		if i2 >= len(leaves) || e != leaves[i2] {
+			return vlib.Failf("the second traversal of the error returned for %s differs from the first at position %d (first: %d leaves)", k.Cfg.GoLiteral(), i2, len(leaves))
+		}
+		i2++
+	}
+	if i2 != len(leaves) {
+		return vlib.Failf("the second traversal of the error returned for %s yields %d leaves, the first yielded %d", k.Cfg.GoLiteral(), i2, len(leaves))
+	}
+	if m := err.Error(); m != msg0 {
+		return vlib.Failf("traversing the error returned for %s changed its message: %q, then %q", k.Cfg.GoLiteral(), msg0, m)
 	}
 	// error values are values: another failing validation (of a configuration that is wrong in every field, with other
 	// offending values) must not change what the errors of this one say
@@ -477,6 +494,42 @@ func c04Explore(c *vlib.Ctx, try0 func(k c04Case)) {
 		try(c04Make(sws[ix[0]], o, m, q, r, 600, 201, vias[int(i)%len(vias)]))
 	})
 	c.States.Add(p4.Count())
+	// P6: one name listed in all three name lists at once: each field is judged by its own rules, none masks another
+	byValue := func(atoms []ref.NameAtom) map[string]int {
+		m := map[string]int{}
+		for i, a := range atoms {
+			if _, dup := m[a.Value]; !dup {
+				m[a.Value] = i
+			}
+		}
+		return m
+	}
+	mIdx, qIdx, rIdx := byValue(c04MA), byValue(c04QA), byValue(c04RA)
+	var shared [][3]int
+	for v, qi := range qIdx {
+		ri, inR := rIdx[v]
+		mi, inM := mIdx[v]
+		if inR {
+			if !inM {
+				mi = 0
+			}
+			shared = append(shared, [3]int{mi, qi, ri})
+		}
+	}
+	sort.Slice(shared, func(a, b int) bool { return shared[a][1] < shared[b][1] })
+	p6 := vlib.Product{Sizes: []int{len(sws), len(shared), 2}}
+	c.ParRange(p6.Count(), 64, "C04/C05 one name in several lists", func(i int64) {
+		var tmp [4]int
+		ix := p6.At(i, tmp[:0])
+		s := shared[ix[1]]
+		q, r := []int{s[1]}, []int{s[2]}
+		if ix[2] == 1 {
+			q, r = []int{0, s[1]}, []int{s[2], 0}
+		}
+		try(c04Make(sws[ix[0]], []int{0}, []int{s[0]}, q, r, 0, 0, vias[int(i)%len(vias)]))
+	})
+	c.States.Add(p6.Count())
+	c.Set("names_shared_between_request_and_response_tables", len(shared))
 	c.Set("atoms", map[string]int{"origins": len(c04OA), "methods": len(c04MA), "request_headers": len(c04QA), "response_headers": len(c04RA)})
 	c.Set("products", map[string]any{"P1_switches_x_origin_lists": p1.Sizes, "P1_max_list_len": L, "P2_all_fields": p2.Sizes, "P3_single_atoms": p3.Sizes})
 }
